@@ -61,11 +61,11 @@ Section JsonlExec.
 
   (* ANY shard description whose ranges tile [0, total): every engine returns the plain read of
      the first `total` lines of the CURRENT content, or fails in its own way *)
-  Theorem exec_jsonl_any_tiling : forall e ls rs total,
+  Theorem exec_jsonl_any_tiling : forall e p ls rs total,
     chain 0 rs total ->
-    exec_source e (jsonl_adapter de ls rs total) = lift_whole e (read_vec de (firstn (N.to_nat total) ls)).
+    exec_source e p (jsonl_adapter de ls rs total) = lift_whole e (read_vec de (firstn (N.to_nat total) ls)).
   Proof.
-    intros e ls rs total H.
+    intros e p ls rs total H.
     pose proof (split_o_chain ls rs 0 total H) as Hs. rewrite slice_prefix in Hs.
     unfold exec_source, source_parts, jsonl_adapter. cbn [ad_split ad_clone].
     rewrite read_range_spec, slice_prefix.
@@ -76,21 +76,21 @@ Section JsonlExec.
     - exfalso. eapply read_vec_not_panic. eassumption.
   Qed.
 
-  Theorem exec_jsonl_source : forall e ls per,
-    exec_source e (jsonl_source de ls per) = lift_whole e (read_vec de ls).
+  Theorem exec_jsonl_source : forall e p ls per,
+    exec_source e p (jsonl_source de ls per) = lift_whole e (read_vec de ls).
   Proof.
-    intros e ls per. unfold jsonl_source.
-    rewrite (exec_jsonl_any_tiling e ls (build_shards ls per) (total_lines ls) (ranges_chain _ per)).
+    intros e p ls per. unfold jsonl_source.
+    rewrite (exec_jsonl_any_tiling e p ls (build_shards ls per) (total_lines ls) (ranges_chain _ per)).
     unfold total_lines, nlen. now rewrite Nat2N.id, firstn_all.
   Qed.
 
   (* the file was rewritten after the source was built over `ls0` *)
-  Theorem exec_jsonl_stale : forall e ls0 ls per,
-    exec_source e (jsonl_adapter de ls (build_shards ls0 per) (total_lines ls0))
+  Theorem exec_jsonl_stale : forall e p ls0 ls per,
+    exec_source e p (jsonl_adapter de ls (build_shards ls0 per) (total_lines ls0))
     = lift_whole e (read_vec de (firstn (length ls0) ls)).
   Proof.
-    intros e ls0 ls per.
-    rewrite (exec_jsonl_any_tiling e ls (build_shards ls0 per) (total_lines ls0) (ranges_chain _ per)).
+    intros e p ls0 ls per.
+    rewrite (exec_jsonl_any_tiling e p ls (build_shards ls0 per) (total_lines ls0) (ranges_chain _ per)).
     unfold total_lines, nlen. now rewrite Nat2N.id.
   Qed.
 
@@ -110,22 +110,22 @@ Section JsonlExec.
 End JsonlExec.
 
 (* ---------- CSV rows ---------- *)
-Theorem exec_rows_any_tiling : forall {R} e (rows : list R) rs total,
+Theorem exec_rows_any_tiling : forall {R} e p (rows : list R) rs total,
   chain 0 rs total ->
-  exec_source e (rows_adapter rows rs total) = Ok (firstn (N.to_nat total) rows).
+  exec_source e p (rows_adapter rows rs total) = Ok (firstn (N.to_nat total) rows).
 Proof.
-  intros R e rows rs total H. unfold exec_source, source_parts, rows_adapter.
+  intros R e p rows rs total H. unfold exec_source, source_parts, rows_adapter.
   cbn [ad_split ad_clone]. rewrite <- slice_prefix.
   destruct (engine_par e); cbn [concat].
   - f_equal. exact (chain_concat rows rs 0 total H).
   - unfold rows_read_range. now rewrite app_nil_r.
 Qed.
 
-Theorem exec_rows_source : forall {R} e (rows : list R) per,
-  exec_source e (rows_source rows per) = Ok rows.
+Theorem exec_rows_source : forall {R} e p (rows : list R) per,
+  exec_source e p (rows_source rows per) = Ok rows.
 Proof.
-  intros R e rows per. unfold rows_source.
-  rewrite (exec_rows_any_tiling e rows _ _ (ranges_chain (nlen rows) per)).
+  intros R e p rows per. unfold rows_source.
+  rewrite (exec_rows_any_tiling e p rows _ _ (ranges_chain (nlen rows) per)).
   unfold nlen. now rewrite Nat2N.id, firstn_all.
 Qed.
 
@@ -164,11 +164,11 @@ Section PqExec.
 
   (* any tiling of the first ng row groups, the file still has at least ng groups: every engine
      returns the rows of those groups *)
-  Theorem exec_pq_any_tiling : forall e (groups : list (list R)) rs ng tr,
+  Theorem exec_pq_any_tiling : forall e p (groups : list (list R)) rs ng tr,
     chain 0 rs ng -> ng <= nlen groups ->
-    exec_source e (pq_adapter groups rs tr) = Ok (concat (firstn (N.to_nat ng) groups)).
+    exec_source e p (pq_adapter groups rs tr) = Ok (concat (firstn (N.to_nat ng) groups)).
   Proof.
-    intros e groups rs ng tr H Hle. unfold exec_source, source_parts, pq_adapter.
+    intros e p groups rs ng tr H Hle. unfold exec_source, source_parts, pq_adapter.
     cbn [ad_split ad_clone]. rewrite (last_end_chain rs ng H), (pq_split_chain_ok groups rs 0 ng H Hle).
     rewrite <- slice_prefix. unfold pq_read_checked at 1. cbn [fst snd].
     destruct (engine_par e).
@@ -180,11 +180,11 @@ Section PqExec.
 
   (* the file shrank below the row groups the handle knows: every engine panics (the parquet
      crate's row-group selection), none returns a partial result *)
-  Theorem exec_pq_stale_shrunk : forall e (groups : list (list R)) rs ng tr,
+  Theorem exec_pq_stale_shrunk : forall e p (groups : list (list R)) rs ng tr,
     chain 0 rs ng -> nlen groups < ng ->
-    exec_source e (pq_adapter groups rs tr) = Panic.
+    exec_source e p (pq_adapter groups rs tr) = Panic.
   Proof.
-    intros e groups rs ng tr H Hlt. unfold exec_source, source_parts, pq_adapter.
+    intros e p groups rs ng tr H Hlt. unfold exec_source, source_parts, pq_adapter.
     cbn [ad_split ad_clone]. rewrite (last_end_chain rs ng H).
     rewrite (pq_split_chain_panic groups rs 0 ng H ltac:(lia) Hlt).
     unfold pq_read_checked. cbn [fst snd].
@@ -192,41 +192,158 @@ Section PqExec.
     destruct (engine_par e); reflexivity.
   Qed.
 
-  Theorem exec_pq_source : forall e (groups : list (list R)) per,
-    exec_source e (pq_source groups per) = Ok (pq_whole groups).
+  Theorem exec_pq_source : forall e p (groups : list (list R)) per,
+    exec_source e p (pq_source groups per) = Ok (pq_whole groups).
   Proof.
-    intros e groups per. unfold pq_source, pq_whole.
-    rewrite (exec_pq_any_tiling e groups _ (nlen groups) _ (group_ranges_chain (nlen groups) per) (N.le_refl _)).
+    intros e p groups per. unfold pq_source, pq_whole.
+    rewrite (exec_pq_any_tiling e p groups _ (nlen groups) _ (group_ranges_chain (nlen groups) per) (N.le_refl _)).
     unfold nlen. now rewrite Nat2N.id, firstn_all.
   Qed.
 End PqExec.
 
 (* ---------- join sides ---------- *)
-Lemma join_side_via_exec : forall e (a : adapter Z) other,
-  join_side_ids e a other
-  = match exec_source e a with Ok v => Ok (join_keys v other) | Err => Err | Panic => Panic end.
+Lemma join_side_via_exec : forall e p (a : adapter Z) other,
+  join_side_ids e p a other
+  = match exec_source e p a with Ok v => Ok (join_keys v other) | Err => Err | Panic => Panic end.
 Proof.
-  intros e a other. unfold join_side_ids, subplan_source, exec_source.
-  destruct (source_parts e a); reflexivity.
+  intros e p a other. unfold join_side_ids, subplan_source, exec_source.
+  destruct (source_parts e p a); reflexivity.
 Qed.
 
-Theorem join_side_eq_whole : forall e (a : adapter Z) other v,
-  exec_source e a = Ok v ->
-  join_side_ids e a other = Ok (join_keys v other)
-  /\ exists parts, subplan_source e a = Ok parts /\ concat parts = v.
+Theorem join_side_eq_whole : forall e p (a : adapter Z) other v,
+  exec_source e p a = Ok v ->
+  join_side_ids e p a other = Ok (join_keys v other)
+  /\ exists parts, subplan_source e p a = Ok parts /\ concat parts = v.
 Proof.
-  intros e a other v H. rewrite join_side_via_exec, H. split; [reflexivity|].
+  intros e p a other v H. rewrite join_side_via_exec, H. split; [reflexivity|].
   unfold exec_source in H. unfold subplan_source.
-  destruct (source_parts e a) as [parts| |]; [|discriminate|discriminate].
+  destruct (source_parts e p a) as [parts| |]; [|discriminate|discriminate].
   exists parts. split; [reflexivity|]. now injection H.
 Qed.
 
-(* all four engines return the same records whenever any of them succeeds, for an adapter whose
-   split and clone_any describe the same data *)
-Theorem engines_agree : forall {R} (a : adapter R) parts,
-  ad_split a = Ok parts -> ad_clone a = Ok (concat parts) ->
-  forall e, exec_source e a = Ok (concat parts).
+(* all four engines return the same records, for every partition count, for an adapter whose split
+   (for every n) and clone_any describe the same data *)
+Theorem engines_agree : forall {R} (a : adapter R) v,
+  ad_clone a = Ok v ->
+  (forall n, exists parts, ad_split a n = Ok parts /\ concat parts = v) ->
+  forall e p, exec_source e p a = Ok v.
 Proof.
-  intros R a parts Hs Hc e. unfold exec_source, source_parts. rewrite Hs, Hc.
-  destruct (engine_par e); [reflexivity|]. cbn [concat]. now rewrite app_nil_r.
+  intros R a v Hc Hs e p. unfold exec_source, source_parts. rewrite Hc.
+  destruct (engine_par e).
+  - destruct (Hs (par_parts p a)) as [parts [Hp Hcc]]. rewrite Hp. now rewrite Hcc.
+  - cbn [concat]. now rewrite app_nil_r.
 Qed.
+
+(* ---------- the CSV index loop ---------- *)
+Lemma rows_loop_spec : forall {R} (rows : list R) i s e,
+  rows_read_loop i rows s e
+  = firstn (N.to_nat (e - N.max i s)) (skipn (N.to_nat (s - i)) rows).
+Proof.
+  intros R rows. induction rows as [|x r IH]; intros i s e.
+  - cbn [rows_read_loop]. now rewrite skipn_nil, firstn_nil.
+  - cbn [rows_read_loop]. destruct (N.ltb_spec i s) as [Hlt|Hge].
+    + rewrite IH. replace (N.to_nat (s - i)) with (S (N.to_nat (s - (i + 1)))) by lia.
+      cbn [skipn]. replace (N.max (i + 1) s) with (N.max i s) by lia. reflexivity.
+    + replace (N.to_nat (s - i)) with 0%nat by lia. cbn [skipn].
+      destruct (N.leb_spec e i) as [Hei|Hei].
+      * replace (N.to_nat (e - N.max i s)) with 0%nat by lia. reflexivity.
+      * replace (N.to_nat (e - N.max i s)) with (S (N.to_nat (e - N.max (i + 1) s))) by lia.
+        cbn [firstn]. rewrite IH.
+        replace (N.to_nat (s - (i + 1))) with 0%nat by lia. cbn [skipn]. reflexivity.
+Qed.
+
+Theorem rows_loop_is_slice : forall {R} (rows : list R) (r : range),
+  rows_read_loop 0 rows (fst r) (snd r) = rows_read_range rows r
+  /\ (snd r <= fst r -> rows_read_range rows r = [])
+  /\ rows_read_range rows (N.min (fst r) (nlen rows), N.min (snd r) (nlen rows)) = rows_read_range rows r.
+Proof.
+  intros R rows [s e]. cbn [fst snd]. split; [|split].
+  - rewrite rows_loop_spec. unfold rows_read_range, slice. cbn [fst snd].
+    replace (N.max 0 s) with s by lia. now rewrite N.sub_0_r.
+  - intros H. unfold rows_read_range, slice. cbn [fst snd].
+    replace (N.to_nat (e - s)) with 0%nat by lia. reflexivity.
+  - unfold rows_read_range. apply slice_clamp.
+Qed.
+
+(* ---------- the in-memory adapter ---------- *)
+Lemma concat_chunks_fuel : forall {R} fuel k (l : list R),
+  (1 <= k)%nat -> (length l <= fuel)%nat -> concat (chunks_fuel fuel k l) = l.
+Proof.
+  intros R fuel. induction fuel as [|f IH]; intros k l Hk Hl.
+  - destruct l; [reflexivity|cbn [length] in Hl; lia].
+  - cbn [chunks_fuel]. destruct l as [|x l']; [reflexivity|].
+    cbn [concat]. rewrite IH; [apply firstn_skipn|assumption|].
+    rewrite skipn_length. cbn [length] in *. lia.
+Qed.
+
+Lemma mem_split_concat : forall {R} (v : list R) n, concat (mem_split v n) = v.
+Proof.
+  intros R v n. unfold mem_split.
+  destruct ((n <=? 1) || (nlen v <=? 1)) eqn:Hc.
+  - cbn [concat]. apply app_nil_r.
+  - apply orb_false_iff in Hc. destruct Hc as [Hn Hv].
+    apply N.leb_gt in Hn. apply N.leb_gt in Hv.
+    unfold chunks. apply concat_chunks_fuel; [|lia].
+    pose proof (div_ceil_pos (nlen v) n ltac:(lia) ltac:(lia)). lia.
+Qed.
+
+Theorem exec_mem_source : forall {R} e p (v : list R), exec_source e p (mem_adapter v) = Ok v.
+Proof.
+  intros R e p v. apply engines_agree; [reflexivity|].
+  intros n. exists (mem_split v n). split; [reflexivity|apply mem_split_concat].
+Qed.
+
+(* the seeded change C09-r4m2: correct on every in-memory source, wrong on a file source with
+   two shards *)
+Theorem first_split_refuted :
+  (forall {R} (v : list R), source_first_split (mem_adapter v) = Ok v)
+  /\ source_first_split (rows_source [1; 2; 3]%Z 2) = Ok [1; 2]%Z
+  /\ exec_source ESeqCk 4 (rows_source [1; 2; 3]%Z 2) = Ok [1; 2; 3]%Z.
+Proof.
+  split; [|split; vm_compute; reflexivity].
+  intros R v. unfold source_first_split, mem_adapter, mem_split. cbn [ad_split].
+  reflexivity.
+Qed.
+
+(* ---------- links to the first model (IO/Jsonl.v) and corollaries ---------- *)
+(* collect_seq / collect_par as modelled in IO/Jsonl.v are the ESeq / EPar instances *)
+Theorem stream_is_exec : forall {R} (de : list Z -> option R) ls per p,
+  stream_seq de ls per = exec_source ESeq p (jsonl_source de ls per)
+  /\ stream_par de ls per = exec_source EPar p (jsonl_source de ls per).
+Proof.
+  intros R de ls per p. rewrite !exec_jsonl_source.
+  pose proof (streamed_eq_whole de ls per) as H.
+  destruct (read_vec de ls) as [v| |] eqn:Hv; cbn [lift_whole engine_fail engine_par].
+  - destruct H as [_ [H1 H2]]. now split.
+  - destruct H as [_ [H1 H2]]. now split.
+  - exfalso. exact (read_vec_not_panic de ls Hv).
+Qed.
+
+Theorem rows_pq_stream_is_exec : forall {R} (rows : list R) (groups : list (list R)) per p,
+  exec_source ESeq p (rows_source rows per) = Ok (rows_stream_seq rows per)
+  /\ exec_source EPar p (rows_source rows per) = Ok (rows_stream_par rows per)
+  /\ exec_source ESeq p (pq_source groups per) = Ok (pq_stream_seq groups per)
+  /\ exec_source EPar p (pq_source groups per) = Ok (pq_stream_par groups per).
+Proof.
+  intros R rows groups per p. rewrite !exec_rows_source, !exec_pq_source.
+  destruct (rows_streamed_eq_whole rows per) as [H1 H2].
+  destruct (pq_streamed_eq_whole groups per) as [H3 H4].
+  rewrite H1, H2, H3, H4. repeat split; reflexivity.
+Qed.
+
+(* a JSONL file that only GREW (lines appended) after the handle was built: every engine returns
+   exactly the records the file had then *)
+Theorem exec_jsonl_appended : forall {R} (de : list Z -> option R) e p ls0 extra per,
+  exec_source e p (jsonl_adapter de (ls0 ++ extra) (build_shards ls0 per) (total_lines ls0))
+  = lift_whole e (read_vec de ls0).
+Proof.
+  intros R de e p ls0 extra per. rewrite exec_jsonl_stale.
+  rewrite firstn_app, Nat.sub_diag, firstn_all. cbn [firstn]. now rewrite app_nil_r.
+Qed.
+
+(* the partition count handed to split is between 1 and max(len, 1) *)
+Theorem par_parts_bounds : forall {R} (a : adapter R) p,
+  1 <= par_parts p a
+  /\ par_parts p a <= N.max p 1
+  /\ par_parts p a <= N.max (match ad_len a with Some l => l | None => 0 end) 1.
+Proof. intros R a p. unfold par_parts. lia. Qed.
